@@ -25,8 +25,9 @@ class State:
     mem: object         # Array BV(bits) -> BV8   (state section minus named words)
     trace: tuple = ()   # ghost trace
     extents: tuple = () # dynamically created entitled state extents (lo, hi) : arrays allocated by this fragment
+    stores: tuple = ()  # every store the fragment itself executed, in order: (addr, nbytes, value, text)
     def copy(self):
-        return State(dict(self.regs), self.mem, self.trace, self.extents)
+        return State(dict(self.regs), self.mem, self.trace, self.extents, self.stores)
 
 
 @dc.dataclass
@@ -57,27 +58,38 @@ class Ctx:
         self.const_extents = list(const_extents)
         self.pre = list(pre)
         self._lbl = {}
-        self.cmem = z3.Array('cmem', z3.BitVecSort(self.BITS), z3.BitVecSort(8))
+        self.M = 1 << self.BITS
+        self.cmem = z3.Array('cmem', z3.IntSort(), z3.IntSort())
         self.fresh_n = 0
-        self.argc = z3.BitVec('argc', self.BITS)
+        self.argc = z3.Int('argc')
+        self.facts = []          # range facts about terms created on the way (memory cells hold bytes, words are in [0,M))
 
     def bv(self, n):
-        return z3.BitVecVal(n, self.BITS)
+        """a word constant (reduced mod M)"""
+        return z3.IntVal(n % self.M)
+
+    def all_pre(self):
+        return self.pre + self.facts
 
     def label(self, name):
         if name not in self._lbl:
-            self._lbl[name] = z3.BitVec('L_' + name, self.BITS)
+            v = z3.Int('L_' + name)
+            self._lbl[name] = v
+            self.facts += [v >= 0, v < self.M]
         return self._lbl[name]
 
     def fresh(self, prefix, sort=None):
         self.fresh_n += 1
         if sort == 'bool':
             return z3.Bool(f'{prefix}!{self.fresh_n}')
-        if sort == 'byte':
-            return z3.BitVec(f'{prefix}!{self.fresh_n}', 8)
         if sort == 'mem':
-            return z3.Array(f'{prefix}!{self.fresh_n}', z3.BitVecSort(self.BITS), z3.BitVecSort(8))
-        return z3.BitVec(f'{prefix}!{self.fresh_n}', self.BITS)
+            return z3.Array(f'{prefix}!{self.fresh_n}', z3.IntSort(), z3.IntSort())
+        v = z3.Int(f'{prefix}!{self.fresh_n}')
+        self.facts += [v >= 0, v < self.M]
+        return v
+
+    def wrap(self, x):
+        return x % self.M
 
 
 class Engine:
@@ -99,23 +111,25 @@ class Engine:
 
     # ---- feasibility ------------------------------------------------------------------------------------
     def sat(self, cond):
-        r = smt.satisfiable(self.ctx.pre + list(cond))
+        r = smt.satisfiable(self.ctx.all_pre() + list(cond))
         if r is None:
             raise EngineError('feasibility query undecided')
         return r
 
     # ---- immediates ---------------------------------------------------------------------------------------
     def imm(self, e):
+        """immediate expression as an (unreduced) integer term"""
         c = self.ctx; k = e[0]
-        if k == 'int': return c.bv(e[1])
-        if k == 'w': return c.bv(e[1] * c.W)
+        if k == 'int': return z3.IntVal(e[1])
+        if k == 'w': return z3.IntVal(e[1] * c.W)
         if k == 'lbl': return c.label(e[1])
         if k == 'sym': return c.syms[e[1]]
         if k == 'argc': return c.argc
         if k == 'neg': return -self.imm(e[1])
         if k == 'add': return self.imm(e[1]) + self.imm(e[2])
         if k == 'sub': return self.imm(e[1]) - self.imm(e[2])
-        if k == 'and': return self.imm(e[1]) & self.imm(e[2])
+        if k == 'and':
+            return isa.arith('and', c.wrap(self.imm(e[1])), c.wrap(self.imm(e[2])), c.W)
         raise EngineError(f'bad immediate {e!r}')
 
     def named(self, o):
@@ -126,9 +140,7 @@ class Engine:
 
     # ---- memory -------------------------------------------------------------------------------------------
     def _in(self, a, n, lo, hi):
-        B = self.ctx.BITS
-        # no wrap: compare in B+1 bits
-        a1 = z3.ZeroExt(1, a); return z3.And(z3.ULE(z3.ZeroExt(1, lo), a1), z3.ULE(a1 + n, z3.ZeroExt(1, hi)))
+        return z3.And(lo <= a, a + n <= hi)
 
     def safe_state(self, st, a, n):
         alts = [self._in(a, n, st.regs['ap'], st.regs['fp'])]
@@ -140,6 +152,11 @@ class Engine:
         alts = [self._in(a, n, lo, hi) for lo, hi in self.ctx.const_extents]
         return z3.Or(*alts) if alts else z3.BoolVal(False)
 
+    def byte_at(self, mem, a):
+        b = z3.Select(mem, a)
+        self.ctx.facts += [b >= 0, b <= 255]        # invariant: memory cells hold bytes (stores reduce mod 256)
+        return b
+
     def ld(self, st, cond, a, n, section, what):
         c = self.ctx
         if section == 'state':
@@ -148,10 +165,9 @@ class Engine:
         else:
             self.safety.append((list(cond), f'load {n} const bytes: {what}', self.safe_const(a, n)))
             mem = c.cmem
-        bs = [z3.Select(mem, a + c.bv(i)) for i in range(n)]
-        v = z3.Concat(*reversed(bs)) if n > 1 else bs[0]
-        if n < c.W:
-            v = z3.ZeroExt(c.BITS - 8 * n, v)      # ASSUME: byte loads zero-extend
+        v = self.byte_at(mem, a)                      # ASSUME: little endian; byte loads zero-extend
+        for i in range(1, n):
+            v = v + (1 << (8 * i)) * self.byte_at(mem, a + i)
         return v
 
     def store(self, st, cond, a, n, v, what):
@@ -159,19 +175,22 @@ class Engine:
         self.safety.append((list(cond), f'store {n} state bytes: {what}', self.safe_state(st, a, n)))
         mem = st.mem
         for i in range(n):
-            mem = z3.Store(mem, a + c.bv(i), z3.Extract(8 * i + 7, 8 * i, v))
+            mem = z3.Store(mem, a + i, (v / (1 << (8 * i))) % 256)
         st.mem = mem
+        st.stores = st.stores + ((a, n, v, what),)
 
-    def val(self, st, cond, o, what=''):
+    def val(self, st, cond, o, what='', raw=False):
+        """value of an operand as a word in [0, M) (raw=True: immediates are left unreduced, for ring operations)"""
         if o.kind == 'imm':
-            return self.imm(o.expr)
+            v = self.imm(o.expr)
+            return v if raw else self.ctx.wrap(v)
         if o.kind == 'state':
             n = self.named(o)
             if n is not None:
                 return st.regs[n]
-            return self.ld(st, cond, self.imm(o.expr), self.ctx.W, 'state', what)
+            return self.ld(st, cond, self.ctx.wrap(self.imm(o.expr)), self.ctx.W, 'state', what)
         if o.kind == 'const':
-            return self.ld(st, cond, self.imm(o.expr), self.ctx.W, 'const', what)
+            return self.ld(st, cond, self.ctx.wrap(self.imm(o.expr)), self.ctx.W, 'const', what)
         raise EngineError(f'bad operand {o!r}')
 
     def setdest(self, st, cond, o, v, what=''):
@@ -183,7 +202,7 @@ class Engine:
                 st.extents = st.extents + ((old, v),)
             st.regs[n] = v
         else:
-            self.store(st, cond, self.imm(o.expr), self.ctx.W, v, what)
+            self.store(st, cond, self.ctx.wrap(self.imm(o.expr)), self.ctx.W, v, what)
 
     # ---- running --------------------------------------------------------------------------------------------
     def run(self, pc, st, cond):
@@ -213,7 +232,7 @@ class Engine:
                 return [Leaf(cond, 'bot', None, st)]
             if op in R.HALTS:
                 l = self.val(st, cond, A[0], txt); r = self.val(st, cond, A[1], txt)
-                hc = isa.HALT_COND[op](l, r)
+                hc = isa.halt_cond(op, l, r, c.W)
                 out = []
                 if self.sat(cond + [hc]):
                     out.append(Leaf(cond + [hc], 'bot', None, st))
@@ -239,34 +258,47 @@ class Engine:
                 return out
             st = st.copy()
             if op in R.ARITH:
-                a = self.val(st, cond, A[1], txt); b = self.val(st, cond, A[2], txt)
+                ring = op in ('add', 'sub', 'mul')
+                a = self.val(st, cond, A[1], txt, raw=ring); b = self.val(st, cond, A[2], txt, raw=ring)
                 if op in ('div', 'mod'):
                     self.safety.append((list(cond), f'divisor non-zero: {txt}', b != 0))
-                if op in ('div', 'mod', 'mul') and op not in c.interpret and not (z3.is_bv_value(a) or z3.is_bv_value(b)):
-                    v = isa.uf(op, c.BITS)(a, b)
-                elif op in ('div', 'mod') and op not in c.interpret:
-                    v = isa.uf(op, c.BITS)(a, b)
-                else:
-                    v = isa.ARITH[op](a, b)
+                v = isa.arith(op, a, b, c.W, c.interpret)
                 self.setdest(st, cond, A[0], v, txt)
             elif op == 'mov':
                 self.setdest(st, cond, A[0], self.val(st, cond, A[1], txt), txt)
+            elif op in R.LOADS and A[1].kind == 'imm' and A[1].expr[0] == 'lbl' and A[1].expr[1] in isa.NAMED_WORDS:
+                # direct access to a named word through its label (e.g. `lbs [r2], r1`: low byte of r1, little endian)
+                v = st.regs[A[1].expr[1]]
+                if op[1] == 'b':
+                    v = v % 256
+                if op[2] != 's':
+                    raise EngineError(f'const load from a state word label: {txt}')
+                self.setdest(st, cond, A[0], v, txt)
+            elif op in R.STORES and A[0].kind == 'imm' and A[0].expr[0] == 'lbl' and A[0].expr[1] in isa.NAMED_WORDS:
+                n = A[0].expr[1]; v = self.val(st, cond, A[1], txt)
+                if op[1] == 'b':
+                    v = st.regs[n] - st.regs[n] % 256 + v % 256
+                if n == 'ap':
+                    st.extents = st.extents + ((st.regs['ap'], v),)
+                st.regs[n] = v
             elif op in R.LOADS or op in R.LOADOS:
-                a = self.val(st, cond, A[1], txt)
+                a = self.val(st, cond, A[1], txt, raw=True)
                 if op in R.LOADOS:
-                    a = a + self.val(st, cond, A[2], txt)
+                    a = a + self.val(st, cond, A[2], txt, raw=True)
+                a = c.wrap(a)
                 n = c.W if op[1] == 'w' else 1
                 v = self.ld(st, cond, a, n, 'state' if op[2] == 's' else 'const', txt)
                 self.setdest(st, cond, A[0], v, txt)
             elif op in R.STORES or op in R.STOREOS:
-                a = self.val(st, cond, A[0], txt)
+                a = self.val(st, cond, A[0], txt, raw=True)
                 if op in R.STOREOS:
-                    a = a + self.val(st, cond, A[1], txt)
+                    a = a + self.val(st, cond, A[1], txt, raw=True)
+                a = c.wrap(a)
                 v = self.val(st, cond, A[-1], txt)
                 self.store(st, cond, a, c.W if op[1] == 'w' else 1, v, txt)
             elif op == 'yield':
                 v = self.val(st, cond, A[0], txt)
-                st.trace = st.trace + (('out', z3.Extract(7, 0, v)),)
+                st.trace = st.trace + (('out', v % 256),)
             elif op == 'sleep':
                 st.trace = st.trace + (('sleep', self.val(st, cond, A[0], txt)),)
             elif op == 'flag':
